@@ -36,6 +36,7 @@ var props = map[string]PropSpec{
 			{Name: "solver.VP_C02_card_e2e", Kind: "E", Params: map[string]int{"n": 3, "m": 2, "k": 2}, Bounds: "n=3; <=2 cardinality constraints on <=2 distinct variables each, literals fully symbolic", Require: []string{"sat", "parse-unsat"}},
 			{Name: "solver.VP_C02_pb_units", Kind: "L", Params: map[string]int{"n": 3, "W": 3, "D": 8}, Bounds: "one GtEq/LtEq/Eq constraint over variables 1..3, symbolic signs, coefficients in [1,3], degree in [-1,8], with any set of unit constraints before or after it; lemma: parsed problem == constraints as written for every assignment; then Solve", Require: []string{"units-lemma", "sat", "unsat", "parse-unsat"}},
 			{Name: "solver.VP_C02_pb_e2e", Kind: "E", Params: map[string]int{"n": 3, "m": 1, "k": 3, "W": 2, "D": 4}, Bounds: "n=3; one constraint from PropClause/AtLeast/AtMost/GtEq/LtEq/Eq on <=3 distinct variables, literals fully symbolic, coefficients in [-2,2], degree in [-4,4]", Require: []string{"sat", "unsat", "parse-unsat"}},
+			{Name: "solver.VP_C02_pb_fixpoint", Kind: "L", Params: map[string]int{"card": 1, "maxsigns": 3}, Bounds: "2-3 cardinality constraints sharing variables over 4-5 variables (4 structures), degrees and 3 signs symbolic; from the state New builds, every order and polarity of decisions until all variables are assigned or propagation reports a conflict: a reported conflict constraint is falsified, and a conflict-free total assignment satisfies every constraint", Require: []string{"total-assignment", "conflict"}},
 		},
 		Thorough: []HarnessRun{
 			{Name: "solver.VP_C02_pb_norm", Kind: "L", Params: map[string]int{"k": 4, "W": 1 << 20, "D": 1 << 22}, Bounds: "as quick", Require: []string{"norm"}},
@@ -57,6 +58,7 @@ var props = map[string]PropSpec{
 			{Name: "solver.VP_C03_optim_cnf", Kind: "E", Params: map[string]int{"n": 3, "m": 2, "k": 2, "kc": 3, "W": 1, "steer": 1, "Wlo": 1, "fullcost": 1, "unitfirst": 1}, Bounds: "n=3, a unit clause and one clause of <=2 literals, cost over all 3 variables with weights 1, every initial phase assignment of the decision heuristic (symbolic phases)", Require: []string{"sat"}},
 			{Name: "solver.VP_C03_optim_pb", Kind: "E", Params: map[string]int{"n": 2, "k": 2, "kc": 2, "W": 2, "PW": 2}, Bounds: "n=2; one PB constraint sum w_i l_i >= d on <=2 distinct variables, w in [1,2], d in [0,5]; cost over <=2 variables, weights [0,2]", Require: []string{"sat", "unsat"}},
 			{Name: "solver.VP_C03_optim_opb", Kind: "E", Params: map[string]int{"n": 3, "CW": 2}, Bounds: "OPB text: min: line over 3 variables (symbolic polarity, weights in [0,2]) and one cardinality constraint; Optimal and Minimize", Require: []string{"opb-optim"}},
+			{Name: "solver.VP_C03_optim_skeleton", Kind: "E", Params: map[string]int{"maxsigns": 0, "W": 3}, Bounds: "3 clause skeletons over 5-6 variables, optional unit clause on any variable, cost over all variables with weights in [1,3] (solver-enumerated): several improvement rounds with weight-sorted bound constraints", Require: []string{"sat"}},
 		},
 		Thorough: []HarnessRun{
 			{Name: "solver.VP_C03_optim_cnf", Kind: "E", Params: map[string]int{"n": 3, "m": 2, "k": 2, "kc": 3, "W": 2}, Bounds: "n=3, <=2 clauses x <=2 literals, cost over <=3 variables, weights [0,2]", Require: []string{"sat", "unsat"}},
@@ -69,7 +71,8 @@ var props = map[string]PropSpec{
 	"C05": {
 		ID: "C05",
 		Quick: []HarnessRun{
-			{Name: "solver.VP_C05_count_cnf", Kind: "E", Params: map[string]int{"n": 3, "m": 2, "k": 2}, Bounds: "n<=3 declared variables (possibly unused), <=2 clauses x <=2 symbolic literals (including none, tautologies, units); CountModels, Enumerate(nil), Enumerate(buffered channel) on three separately built problems", Require: []string{"zero", "all", "some"}},
+			{Name: "solver.VP_C05_count_cnf", Kind: "E", Params: map[string]int{"n": 3, "m": 3, "k": 2}, Bounds: "n<=3 declared variables (possibly unused), <=3 clauses x <=2 symbolic literals (including none, tautologies, units); CountModels, Enumerate(nil), Enumerate(buffered channel) on three separately built problems", Require: []string{"zero", "all", "some"}},
+			{Name: "solver.VP_C05_count_skeleton", Kind: "E", Params: map[string]int{"maxsigns": 10}, Bounds: "6 clause skeletons over 4-6 variables (incl. two random 3-SAT skeletons picked by VERIF_SEED) with 10 symbolic signs: models with several decisions, blocking clauses of 3+ literals, backjumps", Require: []string{"some"}},
 			{Name: "solver.VP_C05_count_cnf", Kind: "E", Params: map[string]int{"n": 2, "m": 3, "k": 2}, Bounds: "n<=2, <=3 clauses x <=2 literals", Require: []string{"zero", "all", "some"}},
 			{Name: "solver.VP_C05_count_pb", Kind: "E", Params: map[string]int{"n": 3, "k": 3, "PW": 2}, Bounds: "n=3; one constraint sum w_i l_i >= d on <=3 distinct variables (w in [1,2], d in [0,7]) through ParsePBConstrs, or with unit weights through ParseCardConstrs; optional unit constraint", Require: []string{"zero", "all", "some"}},
 		},
@@ -87,6 +90,7 @@ var props = map[string]PropSpec{
 			{Name: "solver.VP_C06_cert_e2e", Kind: "E", Params: map[string]int{"n": 3, "m": 2, "k": 3, "steer": 1}, Bounds: "n<=3, <=2 clauses x <=3 literals, every initial phase assignment", Require: []string{"sat", "unsat"}},
 			{Name: "solver.VP_C01_cnf_skeleton", Kind: "E", Params: map[string]int{"maxsigns": 10, "smalldb": 1, "cert": 1}, Bounds: "4 skeletons over 4-6 variables with 10 symbolic signs (certificates with learned clauses, deletion with limit 1), replayed by the independent RUP procedure", Require: []string{"sat", "unsat", "learned", "line"}},
 			{Name: "solver.VP_C01_cnf_skeleton", Kind: "E", Fuel: 20000000, Params: map[string]int{"big": 3, "maxsigns": 9, "smalldb": 1, "cert": 1}, Bounds: "pigeon-hole 4/3 and two random 3-SAT skeletons (8-12 variables) with 9 symbolic signs: certificates with tens of learned clauses and clause deletion", Require: []string{"sat", "unsat", "learned", "line"}},
+			{Name: "solver.VP_C01_cnf_skeleton", Kind: "E", Fuel: 2000000000, NoSample: true, Params: map[string]int{"big": 1, "bigfirst": 5, "maxsigns": 2, "cert": 1}, Bounds: "pigeon-hole 8/6 (48 variables, 176 clauses, hundreds of conflicts, restarts) with 2 symbolic signs: certificate of ~600 lines replayed by the independent RUP procedure", Require: []string{"unsat", "learned", "line"}},
 		},
 		Thorough: []HarnessRun{
 			{Name: "solver.VP_C06_cert_e2e", Kind: "E", Params: map[string]int{"n": 3, "m": 3, "k": 2, "smalldb": 1}, Bounds: "n<=3, <=3 clauses x <=2 literals", Require: []string{"sat", "unsat", "line"}},
@@ -126,6 +130,7 @@ var props = map[string]PropSpec{
 		Quick: []HarnessRun{
 			{Name: "solver.VP_C09_append_hist", Kind: "E", Params: map[string]int{"n": 2, "m": 1, "k": 2, "steps": 1, "ka": 2, "W": 2, "distinct": 0}, Bounds: "base: <=1 clause of <=2 literals over 2 declared variables; one operation from {Solve, AppendClause(clause), AppendClause(cardinality), AppendClause(PB)} on <=2 literals over 3 variables (one unseen; repeated and complementary literals included), weights in [1,2], then Solve", Require: []string{"sat", "unsat", "add-clause", "add-card", "add-pb"}},
 			{Name: "solver.VP_C09_append_hist", Kind: "E", Params: map[string]int{"n": 2, "m": 1, "k": 1, "steps": 2, "ka": 1, "W": 1}, Bounds: "base: <=1 unit clause; two operations with unit constraints (already satisfied, contradictory, new variable), Solve in between or not, then Solve", Require: []string{"sat", "unsat"}},
+			{Name: "solver.VP_C09_append_hist", Kind: "E", Params: map[string]int{"n": 1, "m": 1, "k": 1, "steps": 2, "ka": 2, "W": 1, "distinct": 0, "newvars": 2}, Bounds: "base over 1 variable; two additions of <=2 literals over 3 variables, so that variable indices are skipped when the solver grows", Require: []string{"sat", "unsat"}},
 		},
 		Thorough: []HarnessRun{
 			{Name: "solver.VP_C09_append_hist", Kind: "E", Params: map[string]int{"n": 2, "m": 2, "k": 2, "steps": 1, "ka": 2, "W": 2}, Bounds: "base <=2 clauses; one operation", Require: []string{"sat", "unsat", "add-clause", "add-card", "add-pb"}},
@@ -137,8 +142,10 @@ var props = map[string]PropSpec{
 		ID: "C10",
 		Quick: []HarnessRun{
 			{Name: "solver.VP_C10_assume_rounds", Kind: "E", Params: map[string]int{"n": 2, "m": 2, "k": 2, "rounds": 2, "ka": 2}, Bounds: "base CNF n=2, <=2 clauses x <=2 literals (with unit clauses and parse-time facts); <=2 rounds of <=2 assumed literals each (empty, repeated, complementary, contradicting a fact or the previous round)", Require: []string{"sat", "unsat", "base-unsat"}},
+			{Name: "solver.VP_C10_assume_skeleton", Kind: "E", Params: map[string]int{"nskel": 3, "maxsigns": 8, "rounds": 2, "ka": 1}, Bounds: "3 skeletons with ternary clauses over 3-4 variables, 8 symbolic signs, <=2 rounds of <=1 symbolic assumption: rounds in which a conflict learns a unit or a clause", Require: []string{"sat", "unsat", "unit-learned"}},
 		},
 		Thorough: []HarnessRun{
+			{Name: "solver.VP_C10_assume_skeleton", Kind: "E", Params: map[string]int{"maxsigns": 8, "rounds": 2, "ka": 2}, Bounds: "all 7 skeletons (up to 6 variables), <=2 rounds of <=2 assumptions", Require: []string{"sat", "unsat", "unit-learned"}},
 			{Name: "solver.VP_C10_assume_rounds", Kind: "E", Params: map[string]int{"n": 2, "m": 2, "k": 2, "rounds": 3, "ka": 1}, Bounds: "three rounds of <=1 literal", Require: []string{"sat", "unsat"}},
 			{Name: "solver.VP_C10_assume_rounds", Kind: "E", Params: map[string]int{"n": 3, "m": 2, "k": 2, "rounds": 2, "ka": 1}, Bounds: "n=3, two rounds of <=1 literal", Require: []string{"sat", "unsat"}},
 		},
@@ -230,6 +237,7 @@ var props = map[string]PropSpec{
 			{Name: "solver.VP_C03_optim_pb", Kind: "E", Params: map[string]int{"n": 2, "k": 2, "kc": 2, "W": 2, "PW": 2, "cp": 1}, Bounds: "C03 optim_pb inputs (n=2) with CuttingPlanes on/off: same optimum as the reference", Require: []string{"sat", "unsat"}},
 			{Name: "solver.VP_C14_pb_skeleton", Kind: "E", Params: map[string]int{"maxsigns": 8, "cp": 1}, Bounds: "3 PB/cardinality skeletons over 4-6 variables (pigeon-hole as cardinality constraints, weighted constraints, parity) with 8 symbolic signs, CuttingPlanes on/off, learned-constraint monitor", Require: []string{"sat", "unsat", "cp-unit"}},
 			{Name: "solver.VP_C01_cnf_skeleton", Kind: "E", Params: map[string]int{"maxsigns": 8, "cp": 1, "amo": 1}, Bounds: "4 CNF skeletons with 8 symbolic signs, CuttingPlanes on/off x DetectAtMostOne on/off", Require: []string{"sat", "unsat"}},
+			{Name: "solver.VP_C02_pb_fixpoint", Kind: "E", Params: map[string]int{"card": 1, "maxsigns": 7, "e2e": 1, "cp": 1}, Bounds: "2-3 cardinality constraints sharing variables over 4-5 variables (4 structures), degrees and 7 signs symbolic, solved with CuttingPlanes on/off, learned-constraint monitor", Require: []string{"sat", "unsat", "cp-unit"}},
 		},
 		Thorough: []HarnessRun{
 			{Name: "solver.VP_C14_cp_clash", Kind: "L", Params: map[string]int{"n": 4}, Bounds: "clash over 4 variables", Require: []string{"clash"}},
